@@ -79,7 +79,7 @@ func init() {
 		Rule: "generated shapes (single part, alternatives, embeds, attachments, every combination; each transfer encoding; descriptions; empty / preformatted / multi-line headers; ignored-invalid address lists), content in canonical CRLF form, signed with RSA and ECDSA keys with/without intermediate; rendered twice; independent CMS verifier on each; model predicts signed octets and bytes; non-trivial = multipart inner entity or non-default encoding; distinct by operations",
 		Run: func(c *Ctx) {
 			n := c.N(300, 20000)
-			kinds := []string{"rsa", "ecdsa", "rsa+ic", "ecdsa+ic"}
+			kinds := []string{"rsa", "ecdsa", "rsa+ic", "ecdsa+ic", "ecdsa384", "ecdsa521+ic", "ecdsa384+ic", "ecdsa521"}
 			for i := 0; i < n; i++ {
 				r := c.Rng
 				spc := genSpec(r, genOpts{maxParts: 3, maxFiles: 2, noFails: true, smallContent: true})
